@@ -73,4 +73,43 @@ def resolveService (fs : String → Disk) (skipEnv : Bool) (envFiles : List EnvF
     | .err c p => .err c p
     | .ok l2 => .ok (l1 ++ l2)
 
+/-! ## all services of a project (round 6)
+
+`WithServicesEnvironmentResolved` and `WithServicesLabelsResolved` each run `for i, service := range newProject.Services`
+(a Go map: any order) and return the first error; `modelToProject` calls the first (unless `SkipResolveEnvironment`)
+and then the second.  Nothing is remembered from one service — or one reference — to the next. -/
+
+structure Svc where
+  envFiles : List EnvFile
+  labelFiles : List String
+deriving Repr
+
+/-- the loop of `WithServicesEnvironmentResolved` over the services in visit order -/
+def envPass (fs : String → Disk) : List Svc → List String → Out
+  | [], acc => .ok acc
+  | s :: r, acc =>
+    match loadEnvFiles fs s.envFiles [] with
+    | .err c p => .err c p
+    | .ok l => envPass fs r (acc ++ l)
+
+/-- the loop of `WithServicesLabelsResolved` over the services in visit order -/
+def labelPass (fs : String → Disk) : List Svc → List String → Out
+  | [], acc => .ok acc
+  | s :: r, acc =>
+    match loadLabelFiles fs s.labelFiles [] with
+    | .err c p => .err c p
+    | .ok l => labelPass fs r (acc ++ l)
+
+/-- both passes, as `modelToProject` chains them: the env files of ALL services first, then the label files -/
+def resolveProject (fs : String → Disk) (skipEnv : Bool) (svcs : List Svc) : Out :=
+  match (if skipEnv then Out.ok [] else envPass fs svcs []) with
+  | .err c p => .err c p
+  | .ok l1 => match labelPass fs svcs [] with
+    | .err c p => .err c p
+    | .ok l2 => .ok (l1 ++ l2)
+
+def Out.isOk : Out → Bool
+  | .ok _ => true
+  | .err _ _ => false
+
 end CV.C01.Files
